@@ -139,10 +139,11 @@ class Cases:
 
     def add(self, cls, g, root=1, cyc=0, mask=W_ALL, note=None):
         if cls.startswith(("tlc-graph", "graph-")) and shared_cdr_chain(g, root):
-            cls += "+shared-cdr-chain"
+            note = "%s %s" % (cls, note or "")
+            cls = "graph+shared-cdr-chain"        # one class whatever the generator: the keys do not depend on the seed
         cid = len(self.cases) + 1
         # the abstract reader is run on the text of every case except two of three of the big sweep vectors
-        big = len(g.n) > 200 and cls.split(":")[0] in ("flo-half", "flo-pow2-ulp", "flo-random", "flo-subnormal", "char-u1", "char-u2", "char-u3", "char-u4")
+        big = len(g.n) > 200 and cls.split(":")[0] in ("flo-half", "flo-pow2-ulp", "flo-random", "flo-subnormal", "flo-short", "char-u1", "char-u2", "char-u3", "char-u4")
         self.sweep = getattr(self, "sweep", 0) + (1 if big else 0)
         self.cases.append({"id": cid, "cls": cls, "g": g.json(root), "cyc": cyc, "mask": mask, "tr": (not big) or self.sweep % 3 == 0,
                            "recipe": "(%d %d (%d %d) %s)" % (cid, root, cyc, mask, g.recipe()), "note": note})
@@ -261,6 +262,18 @@ def gen_flonums(cs, rng, thorough, nrandom):
     sub = [rng.getrandbits(52) | (rng.getrandbits(1) << 63) for _ in range(512)] + [1 << k for k in range(52)] + [(1 << k) - 1 for k in range(1, 53)]
     for ch in vlib.chunks(sub, 256):
         cs.vector_of("flo-subnormal", [("flo", b) for b in ch])
+    # flonums with a short decimal representation (at most 15 significant digits, small exponent) and integers below 2^53
+    short = []
+    for _ in range(1024):
+        c = rng.random()
+        if c < 0.5:
+            short.append(dbits(round(rng.uniform(-1000, 1000), rng.randint(0, 6))))
+        elif c < 0.75:
+            short.append(dbits(float(rng.getrandbits(rng.randint(1, 49)) * rng.choice([1, -1]))))
+        else:
+            short.append(dbits(rng.randint(1, 99999) * 10.0 ** rng.randint(-10, 15)))
+    for ch in vlib.chunks(short, 256):
+        cs.vector_of("flo-short", [("flo", b) for b in ch])
     rnd = []
     for _ in range(nrandom):
         c = rng.random()
@@ -980,9 +993,11 @@ def binding_selftest(chk, sc, cases, by, rejected):
 # ------------------------------------------------------------------------------------------------
 VALID_TEXTS = [
     "@number",
-    "#e1.5", "#i1/2", "#x1F", "#b101", "#o17", "#d10", "#x-1f", "#e1e3", "#i5", "#xAbC", "#e#x10", "#x#e10", "#i#b11", "#X1f", "#E1.5", "#I5", "1e3", "1E3", "-1.5e-3", ".5", "+.5", "-.5", "5.",
+    "#e1.5", "#i1/2", "#x1F", "#b101", "#o17", "#d10", "#x-1f", "#e1e3", "#i5", "#xAbC", "#X1f", "#E1.5", "#I5", "1e3", "1E3", "-1.5e-3", ".5", "+.5", "-.5", "5.",
     "1e400", "-1e400", "1e-400", "+inf.0", "-inf.0", "+nan.0", "1+2i", "1-2i", "-i", "+i", "+2i", "1/2+3/4i", "1.5+2.5i", "1@0", "123456789012345678901234567890", "-123456789012345678901234567890",
-    "1/2", "-1/2", "2/4", "10/5", "+5", "-0", "-0.0", "0.0", "00012", "#e-0.5", "#i-1/3", "#e1e-3", "#b-101/11", "#o-17", "#x10/F", "#e1.25e2", "#d1.5", "#d#e1.5", "#e#d1.5",
+    "1/2", "-1/2", "2/4", "10/5", "+5", "-0", "-0.0", "0.0", "00012", "#e-0.5", "#i-1/3", "#e1e-3", "#b-101/11", "#o-17", "#x10/F", "#e1.25e2", "#d1.5",
+    "@number-two-prefixes",
+    "#e#x10", "#x#e10", "#i#b11", "#b#i11", "#d#e1.5", "#e#d1.5", "#d#i1/3", "#i#d1/3", "#x#i-ff", "#o#e17",
     "@misc",
     "#t", "#f", "#true", "#false", "()", "#()", "#u8()", "#u8(0 1 255)", "#u8(#xFF #b1 #o7)", "'a", "`a", ",a", ",@a", "'()", "''a", "'(a . b)", "`(a ,b ,@c)", "'#(a)", "'\"s\"", "' a",
     "@comment",
@@ -1080,7 +1095,7 @@ def gen_texts(rng, written, thorough):
                     p = pre.upper() if upper else pre
                     for kind, bl in sorted(bodies[radix].items()):
                         for shape in ("real", "complex"):
-                            cls = "number-%s%s%s%s" % (shape, "-radix" if radix else "", "-" + exact[1] + "prefix" if exact else "", "-uppercase" if upper else "")
+                            cls = "number-%s-%s%s%s%s" % (shape, kind, "-radix" if radix else "", "-" + exact[1] + "prefix" if exact else "", "-uppercase" if upper else "")
                             for j, bdy in enumerate(bl):
                                 for sign in ("", "-") if j == 0 else ("",):
                                     txt = p + sign + bdy
